@@ -13,6 +13,8 @@ def run(r):
     thorough = r.tier == 'thorough'
     r.model_check('AskaryanRelMC', 'AskaryanRel_thorough.cfg' if thorough else 'AskaryanRel.cfg', timeout=1500)
     r.exhaustive = True
+    from vlib import apalache
+    apalache.inductive(r, 'AskaryanRelInd')      # the same algebra without bounds: Consistent is an inductive invariant
     for k, depth in enumerate((6, 9) if thorough else (6,)):
         s = tlc.simulate('AskaryanRelMC', 'AskaryanRel_sim.cfg', 'C07/sim%d' % k,
                          num=(6000 if thorough else 1200), depth=depth, seed=r.seed + 7 + k)
